@@ -600,6 +600,7 @@ static void turn_deliver (const uint8_t *b, size_t n, const NiceAddress *from)
 {
   size_t cap = n ? n : 1; uint8_t *buf = malloc (cap); GInputVector v = { buf, n }; NiceAddress fr; NiceInputMessage m = { &v, 1, &fr, 0 };
   gint r;
+  fflush (stdout);      /* relay traffic may abort the process (recorded finding): keep the completed lines */
   nice_address_init (&fr);
   dfrom = *from;
   g_queue_push_tail (dq, g_bytes_new (b, n));
